@@ -1,6 +1,7 @@
 package c19
 
 import (
+	"context"
 	"encoding/json"
 	"errors"
 	"fmt"
@@ -78,9 +79,21 @@ func (sc *scriptConn) faultErr(what string) error {
 		return res.ErrTimeout
 	case "resnotfound":
 		return res.ErrNotFound
+	case "deadline":
+		// an error that calls itself a timeout, as net.Error and context errors do
+		return context.DeadlineExceeded
+	case "neterr":
+		return netTimeout{}
 	}
 	return errors.New("injected " + what + " failure")
 }
+
+// netTimeout is an error with the Timeout and Temporary methods of net.Error.
+type netTimeout struct{}
+
+func (netTimeout) Error() string   { return "i/o timeout" }
+func (netTimeout) Timeout() bool   { return true }
+func (netTimeout) Temporary() bool { return true }
 
 func (sc *scriptConn) Publish(subject string, payload []byte) error {
 	return errors.New("unexpected Publish")
@@ -334,7 +347,7 @@ func genCase() *rapid.Generator[Case] {
 		c.Req = rapid.SampledFrom([]string{"nil", "struct", "nil", "struct", "unmarshalable", "nilptr", "nilmap", "emptymap", "rawbad", "rawok"}).Draw(t, "req")
 		if rapid.IntRange(0, 9).Draw(t, "faulty") == 0 {
 			c.Fault = rapid.SampledFrom([]string{"subscribe", "publish"}).Draw(t, "fault")
-			c.FaultErr = rapid.SampledFrom([]string{"", "closed", "draining", "timeout", "restimeout", "resnotfound"}).Draw(t, "faulterr")
+			c.FaultErr = rapid.SampledFrom([]string{"", "closed", "draining", "timeout", "restimeout", "resnotfound", "deadline", "neterr"}).Draw(t, "faulterr")
 		}
 		n := rapid.IntRange(0, 6).Draw(t, "nmsg")
 		at := 0
